@@ -1728,7 +1728,29 @@ def _stores_in(ctx, f, is_target, kind, field):
     ex = Expander(ctx.prog, f, ctx.typer)
     cfg = cfg_of(f)
     out = []
+    consumed = set()
+
+    def cond_store(st):
+        """`if c: T[k] = A / else: T[k] = B` (any depth of elif) as one store of `A if c else B`: (key, value) or None"""
+        if isinstance(st, ast.Assign) and len(st.targets) == 1 and isinstance(st.targets[0], ast.Subscript) and is_target(st.targets[0].value):
+            cn = cfg.node_of(st)
+            return ex.expand(st.targets[0].slice, cn), ex.expand(st.value, cn), [st]
+        if isinstance(st, ast.If) and len(st.body) == 1 and len(st.orelse) == 1:
+            a, b = cond_store(st.body[0]), cond_store(st.orelse[0])
+            if a is not None and b is not None and same(a[0], b[0]):
+                t = ex.expand(st.test, cfg.node_of(st))
+                return a[0], ast.IfExp(test=t, body=a[1], orelse=b[1]), a[2] + b[2]
+        return None
     for n in walk_no_nested(f.node):
+        if isinstance(n, ast.If) and id(n) not in consumed:
+            cs = cond_store(n)
+            if cs is not None:
+                consumed |= {id(x) for x in cs[2]} | {id(x) for x in ast.walk(n) if isinstance(x, ast.If)}
+                v = ast.fix_missing_locations(ast.copy_location(cs[1], n))
+                out.append((n, [U.Entry('pair', key=cs[0], value=v, node=n)]))
+                continue
+        if id(n) in consumed:
+            continue
         if isinstance(n, (ast.Assign, ast.AnnAssign)):
             tgts = n.targets if isinstance(n, ast.Assign) else [n.target]
             for t in tgts:
